@@ -182,6 +182,13 @@ const char *tr_find_char(const char *s, size_t n, char c) {
     __CPROVER_assert(n == 0 || __CPROVER_r_ok(s, n), "tr_find.precondition: range readable for n elements");
     size_t k = nondet_size_t();
     TRF_S = s; TRF_N = n; TRF_C = c; TRF_CALLS++;
+    if (n <= 8) {       /* small tables (e.g. the list of valid float conversions): the exact answer, position by position */
+        size_t f = n;
+        if (n > 7 && s[7] == c) f = 7; if (n > 6 && s[6] == c) f = 6; if (n > 5 && s[5] == c) f = 5; if (n > 4 && s[4] == c) f = 4;
+        if (n > 3 && s[3] == c) f = 3; if (n > 2 && s[2] == c) f = 2; if (n > 1 && s[1] == c) f = 1; if (n > 0 && s[0] == c) f = 0;
+        TRF_RET = f < n ? s + f : (const char *)0;
+        return TRF_RET;
+    }
     _Bool none = nondet_bool() || n == 0;
     if (TRIM_CHARSET != (const char *)0 && s == TRIM_CHARSET) __CPROVER_assume(none == !IN_SET(c));
     if (none) {
@@ -245,3 +252,32 @@ float lc_strtof(const char *s, char **endp) { lc_common(LC_strtof, s, endp, 0); 
 static inline int std_abs_int(int x) { __CPROVER_assert(x != (-2147483647 - 1), "std::abs.precondition: the absolute value is representable (not the most negative int)"); return x < 0 ? -x : x; }
 static inline long std_abs_long(long x) { __CPROVER_assert(x != (-9223372036854775807L - 1), "std::abs.precondition: the absolute value is representable (not the most negative long)"); return x < 0 ? -x : x; }
 static inline long long std_abs_long_long(long long x) { __CPROVER_assert(x != (-9223372036854775807LL - 1), "std::abs.precondition: the absolute value is representable (not the most negative long long)"); return x < 0 ? -x : x; }
+
+/* ---- snprintf(buf, n, "%[+][.prec]conv", double): the rendering itself is the C library's (trusted, uninterpreted).
+ * Assumed contract (C11 7.21.6.5): returns r >= 1, the length of the complete rendering (however long); writes min(r, n-1) bytes and
+ * a terminating NUL into buf[0..n); for a conversion WITHOUT an explicit precision the rendering of an IEEE-754 binary64 value has at
+ * most 317 characters ("-" + 309 digits + "." + 6 digits for %f of -DBL_MAX; %e/%g are much shorter).                               */
+struct { int calls; char *buf; size_t n; char fmt[32]; double value; int ret; size_t written; char out_at; const char *fmtp; double value0; } SNP;
+#define SNP_MAX_NOPREC 317
+int lc_snprintf(char *buf, size_t n, const char *fmt, double value)
+{
+    __CPROVER_assert(n >= 1 && __CPROVER_w_ok(buf, n), "snprintf.precondition: the buffer is writable for n bytes");
+    SNP.calls++; SNP.buf = buf; SNP.n = n; SNP.value = value;
+    _Bool terminated = 0, has_prec = 0;
+    for (int i = 0; i < 32; i++) {
+        _Bool inside = (size_t)__CPROVER_POINTER_OFFSET(fmt) + (size_t)i < __CPROVER_OBJECT_SIZE(fmt);
+        if (!terminated) { __CPROVER_assert(inside, "snprintf.precondition: the format specification is readable up to its NUL"); if (fmt[i] == '.') has_prec = 1; if (fmt[i] == 0) terminated = 1; }
+        SNP.fmt[i] = inside ? fmt[i] : 0;      /* raw bytes of the specification buffer (recorded past the first NUL too, where readable) */
+    }
+    __CPROVER_assert(terminated, "snprintf.precondition: the format specification is NUL-terminated (within its 32-byte buffer)");
+    int r = nondet_int(); __CPROVER_assume(r >= 1);
+    if (!has_prec) __CPROVER_assume(r <= SNP_MAX_NOPREC);
+    _Bool again = SNP.calls > 1 && SNP.fmtp == fmt && __CPROVER_equal(SNP.value0, value);    /* snprintf is a function of (format, value): a repeated call renders the same text */
+    if (again) r = SNP.ret;
+    size_t w = (size_t)r < n ? (size_t)r : n - 1;
+    if (n <= 64) __CPROVER_havoc_slice(buf, n); else __CPROVER_havoc_slice(buf, w);     /* bytes after the NUL are unspecified */
+    if (again && GI2 < SNP.written && GI2 < w) buf[GI2] = SNP.out_at;
+    buf[w] = 0;
+    SNP.ret = r; SNP.written = w; SNP.out_at = GI2 < w ? buf[GI2] : 0; SNP.fmtp = fmt; SNP.value0 = value;
+    return r;
+}
